@@ -277,6 +277,8 @@ def work(item):
         # names that agree in a long prefix, one after the other, and trace-level subscripts
         stem = "Fe0.70Cr0.18Ni0.08Mn0.02Si0.01C0.0004P0.0002S0.0001"
         for nm in (stem + "Mo0.01", stem + "Mo0.09", stem + "Mo0.01", "Si0.9999995B0.0000005", "SiO2(Fe2O3)0.0000004", "Polyethylene", "Polyethylene Terephthalate (Mylar)", "H2O", "H2O2",
+                   "CH2" * 400 + "Pb", "(" + "SiO2" * 300 + ")2U", "H" * 1023 + "O", "H" * 1024 + "O", "(CH2)400Pb", "C" * 4095 + "O2",
+                   "Fe0.9470000000000001O", "Ga0.30000000000000004As0.7", "Pb12.345678901234567Te", "U0.3333333333333333O0.6666666666666666", "Fe0.94700000000000001O",
                    "H2O\n", "SiO2\r\n", "Ca5(PO4)3F\r", "C6H12O6\nNaCl", "H2O\t", " H2O", "Water, Liquid\n", "\ufeffH2O"):
             for E in (8.0, 30.0):
                 r = check_cp(st, env, nm, E, 1.0, 0.5)
